@@ -10,6 +10,8 @@ import (
 type c04Leaves struct {
 	p1, p2, key, ebase string
 	n, d0, d1          uint64
+	e0, e1             uint64 // lengths of the unnamed dimensions of a fixed array
+	p3                 string // field type of the imported record that shares its simple name with a local one
 }
 
 var c04P1 = []string{"int32", "uint8", "float64", "string"}
@@ -24,6 +26,9 @@ func newC04Leaves() *c04Leaves {
 		n:     verifUint64("n"),
 		d0:    verifUint64("d0"),
 		d1:    verifUint64("d1"),
+		e0:    verifUint64("e0"),
+		e1:    verifUint64("e1"),
+		p3:    verifOneOf("p3", "int32", "float32"),
 	}
 }
 
@@ -56,6 +61,7 @@ const (
 	editArrayRank
 	editStepOrder
 	editGenericArgs
+	editGridDynamic // fixed array with unnamed dimensions -> dynamic array of the same rank
 	nEdits
 )
 
@@ -83,12 +89,22 @@ func c04Model(L *c04Leaves, d *c04Deco, edit int) *dsl.Namespace {
 	fdata := b.field("data", arr)
 	fv := b.field("v", vec)
 	fx.Comment, fy.Comment, fdata.Comment, fv.Comment = d.c("x"), d.c("y"), d.c("data"), d.c("v")
-	fields := []*dsl.Field{fx, fy, fdata, fv}
+	// p2[e0, e1]: fixed array whose dimensions have lengths but no names; p1[,]: dynamic array of rank 2
+	gdims := dsl.ArrayDimensions{&dsl.ArrayDimension{NodeMeta: b.meta(), Length: &L.e0}, &dsl.ArrayDimension{NodeMeta: b.meta(), Length: &L.e1}}
+	if edit == editGridDynamic {
+		gdims = dsl.ArrayDimensions{&dsl.ArrayDimension{NodeMeta: b.meta()}, &dsl.ArrayDimension{NodeMeta: b.meta()}}
+	}
+	fgrid := b.field("grid", b.gt(&dsl.Array{NodeMeta: b.meta(), Dimensions: &gdims}, b.st(L.p2)))
+	ddims := dsl.ArrayDimensions{&dsl.ArrayDimension{NodeMeta: b.meta()}, &dsl.ArrayDimension{NodeMeta: b.meta()}}
+	fdyn := b.field("dyn", b.gt(&dsl.Array{NodeMeta: b.meta(), Dimensions: &ddims}, b.st(L.p1)))
+	// a record of an imported namespace with the same simple name as this one
+	fext := b.field("ext", b.st("Lib.Point"))
+	fields := []*dsl.Field{fx, fy, fdata, fv, fgrid, fdyn, fext}
 	switch edit {
 	case editReorderFields:
-		fields = []*dsl.Field{fy, fx, fdata, fv}
+		fields = []*dsl.Field{fy, fx, fdata, fv, fgrid, fdyn, fext}
 	case editDropField:
-		fields = []*dsl.Field{fx, fdata, fv}
+		fields = []*dsl.Field{fx, fdata, fv, fgrid, fdyn, fext}
 	}
 	point := b.record(ns, "Point", nil, fields...)
 	point.Comment = d.c("Point")
@@ -139,16 +155,33 @@ func c04Model(L *c04Leaves, d *c04Deco, edit int) *dsl.Namespace {
 			tds[i], tds[j] = tds[j], tds[i]
 		}
 	}
+	bl := &mb{file: "lib/lib.yml", line: d.lineOff}
+	lib := &dsl.Namespace{Name: "Lib", TypeDefinitions: dsl.TypeDefinitions{bl.record("Lib", "Point", nil, bl.field("id", bl.st(L.p3)))}}
+	n.References = []*dsl.Namespace{lib}
 	return n
 }
 
+// c04All: the namespaces handed to dsl.Validate (imported namespaces first)
+func c04All(n *dsl.Namespace) []*dsl.Namespace {
+	return append(append([]*dsl.Namespace{}, n.References...), n)
+}
+
+func c04Main(env *dsl.Environment) *dsl.Namespace {
+	for _, ns := range env.Namespaces {
+		if ns.Name == "Ns" {
+			return ns
+		}
+	}
+	return nil
+}
+
 func schemaOf(n *dsl.Namespace, protoName string) (string, bool) {
-	env, err := dsl.Validate([]*dsl.Namespace{n})
+	env, err := dsl.Validate(c04All(n))
 	if err != nil {
 		verifOut("validate-error", err.Error())
 		return "", false
 	}
-	for _, p := range env.Namespaces[0].Protocols {
+	for _, p := range c04Main(env).Protocols {
 		if p.Name == protoName {
 			return dsl.GetProtocolSchemaString(p, env.SymbolTable), true
 		}
@@ -202,7 +235,7 @@ func C04Determines(small int) {
 	verifAssert("base-validates", ok1)
 	L2 := *L
 	edit := editNone
-	what := verifChoose("edit", 7+nEdits-1)
+	what := verifChoose("edit", 9+nEdits-1)
 	changed := false // does the edit change the wire plan?
 	switch what {
 	case 0:
@@ -226,8 +259,18 @@ func C04Determines(small int) {
 	case 6:
 		L2.d1 = verifUint64("d1b")
 		changed = L2.d1 != L.d1
+	case 7:
+		if verifChoose("which-unnamed-dim", 2) == 0 {
+			L2.e0 = verifUint64("e0b")
+		} else {
+			L2.e1 = verifUint64("e1b")
+		}
+		changed = L2.e0 != L.e0 || L2.e1 != L.e1
+	case 8:
+		L2.p3 = verifOneOf("p3b", "int32", "float32")
+		changed = L2.p3 != L.p3
 	default:
-		edit = what - 6
+		edit = what - 8
 		changed = true
 	}
 	s2, ok2 := schemaOf(c04Model(&L2, plain, edit), "Proto")
